@@ -343,6 +343,10 @@ func (in *inst) desugarSelects(f *ast.File) {
 				ast.NewIdent(hasDefault),
 			},
 		}
+		// a select is a terminating statement when its clauses are; the switch
+		// needs a default clause to be one too (never taken: Select returns the
+		// index of an existing clause)
+		cases = append(cases, &ast.CaseClause{Body: []ast.Stmt{&ast.ExprStmt{X: &ast.CallExpr{Fun: ast.NewIdent("panic"), Args: []ast.Expr{&ast.BasicLit{Kind: token.STRING, Value: `"zzsim: select chose a clause that does not exist"`}}}}}})
 		return pre, &ast.SwitchStmt{Tag: tag, Body: &ast.BlockStmt{List: cases}}
 	}
 	fix := func(list []ast.Stmt) []ast.Stmt {
